@@ -33,6 +33,8 @@ cActsEval == {"ModelEval", "ModelEvalNear", "JacEval", "JacEvalNear", "SensEval"
 cSensors == SensorPool
 cReadings == ReadingPool
 cOpsAll == {"add","sub","mul","div","neg","pow2","pow3","sin","cos","exp","tanh","atan","sqrt1","log1","tan","asinb","acosb","muldt","abs1"}
+\* |.| written as sqrt(.^2) around shared compound terms that take both signs
+cOpsAbs == {"add","sub","mul","neg","abs1"}
 cOpsRat == {"add","sub","mul","div","neg","pow2","muldt"}
 cOpsLin == {"add","sub","neg","muldt"}
 cConsts == <<RI(2), RQ(1,2), RI(-1), RI(3)>>
